@@ -14,9 +14,9 @@
 (***************************************************************************)
 EXTENDS ExpandDefs, TLCExt, Json, IOUtils
 
-Traces == ndJsonDeserialize(IOEnv.TRACE_FILE)
+Traces == TLCEval(ndJsonDeserialize(IOEnv.TRACE_FILE))
 NT == Len(Traces)
-UpRaw == JsonDeserialize(IOEnv.UP_FILE)
+UpRaw == TLCEval(JsonDeserialize(IOEnv.UP_FILE))
 TrUp == [c \in { UpRaw[j][1] : j \in 1..Len(UpRaw) } |->
             (LET j == CHOOSE j \in 1..Len(UpRaw) : UpRaw[j][1] = c IN UpRaw[j][2])]
 
@@ -43,9 +43,9 @@ ClauseHolds(k) ==
     [] T.kind = "gen" /\ k = 2 -> TRUE
 
 TInit == tid \in 1..NT /\ l = 1
-TStep == /\ l <= NClauses /\ ClauseHolds(l) /\ l' = l + 1 /\ UNCHANGED tid
+TStep == /\ l <= NClauses /\ (ClauseHolds(l) = TRUE) /\ l' = l + 1 /\ UNCHANGED tid
 TSpec == TInit /\ [][TStep]_tvars
 Accepted == l = NClauses + 1
 Report == /\ (Accepted => PrintT(<<"ACCEPT", T.tid>>))
-          /\ ((~ENABLED TStep /\ ~Accepted) => PrintT(<<"STUCK", T.tid, l, ClauseName(l)>>))
+          /\ ((l <= NClauses /\ (ClauseHolds(l) = FALSE)) => PrintT(<<"STUCK", T.tid, l, ClauseName(l)>>))
 =============================================================================
